@@ -161,6 +161,8 @@ func exec(op string) vlib.Res {
 		return sigsVerify(f)
 	case "l3 new", "l3 query", "l3 again":
 		return l3Op(f, op)
+	case "pick fallback":
+		return pickFallback(f[2], vlib.Atoi(f[3]), f[4])
 	case "loop new":
 		loopResolver = bareResolver(5)
 		loopCtx = context.Background()
